@@ -27,6 +27,7 @@ import (
 	"go/types"
 	"math"
 	"math/big"
+	"math/bits"
 	"strconv"
 	"strings"
 	"unicode"
@@ -503,6 +504,11 @@ func (fr *frame) eval1(v ssa.Value) Val {
 		// parsers compare the cause of a conversion failure with them
 		if x.Pkg != nil && x.Pkg.Pkg.Path() == "strconv" && (x.Name() == "ErrRange" || x.Name() == "ErrSyntax") {
 			return Val{K: KPtr, S: "g:strconv." + x.Name()}
+		}
+		// a package-level pattern of the module, compiled once in the package
+		// initialiser from a constant and never assigned again
+		if _, ok := fr.in.Prog.globalPattern(x); ok {
+			return Val{K: KPtr, S: "g:" + x.Pkg.Pkg.Path() + "." + x.Name()}
 		}
 		return top
 	case *ssa.FreeVar:
@@ -1508,6 +1514,34 @@ func (fr *frame) pureCall(fn *ssa.Function, args []Val) (Val, bool) {
 			ev = Val{K: KIface, T: types.NewPointer(nt), Inner: &op, Dep: dep}
 		}
 		return Val{K: KTuple, Elems: []Val{res, ev}}, true
+	case "math/bits.Len", "math/bits.Len8", "math/bits.Len16", "math/bits.Len32", "math/bits.Len64",
+		"math/bits.LeadingZeros", "math/bits.LeadingZeros8", "math/bits.LeadingZeros16", "math/bits.LeadingZeros32", "math/bits.LeadingZeros64",
+		"math/bits.TrailingZeros", "math/bits.TrailingZeros8", "math/bits.TrailingZeros16", "math/bits.TrailingZeros32", "math/bits.TrailingZeros64",
+		"math/bits.OnesCount", "math/bits.OnesCount8", "math/bits.OnesCount16", "math/bits.OnesCount32", "math/bits.OnesCount64":
+		if allKnown && args[0].K == KInt && args[0].I.Sign() >= 0 && args[0].I.IsUint64() {
+			x := args[0].I.Uint64()
+			width := 64
+			for _, w := range []int{8, 16, 32} {
+				if strings.HasSuffix(fn.Name(), strconv.Itoa(w)) {
+					width = w
+				}
+			}
+			var n int
+			switch {
+			case strings.HasPrefix(fn.Name(), "LeadingZeros"):
+				n = width - bits.Len64(x)
+			case strings.HasPrefix(fn.Name(), "Len"):
+				n = bits.Len64(x)
+			case strings.HasPrefix(fn.Name(), "TrailingZeros"):
+				n = bits.TrailingZeros64(x)
+				if x == 0 {
+					n = width
+				}
+			default:
+				n = bits.OnesCount64(x)
+			}
+			return Val{K: KInt, I: big.NewInt(int64(n)), Dep: dep}, true
+		}
 	case "strconv.Itoa":
 		if allKnown && args[0].K == KInt {
 			return Val{K: KStr, S: args[0].I.String(), Dep: dep}, true
